@@ -594,45 +594,88 @@ def op_churn(st, recipe, seed, n=25, with_keys=True):
                     break
                 del arr, dw
     # same-shape alternation: fresh graphs of the SAME shape (same node kinds,
-    # same object count, hence -- with a deterministic allocator -- the same
-    # addresses round after round) that are alternately equal and different.
-    # Whatever an earlier round left behind keyed by address now speaks about
-    # other objects.
+    # same object count) that are alternately equal and different, built and
+    # released hundreds of times in a tight loop.  Whatever an earlier round
+    # left behind keyed by ADDRESS sooner or later speaks about other objects
+    # (measured against seeded change C04-c04e: the first stale verdict after
+    # ~150 rounds).  The recipe itself is used if two fresh builds of it are
+    # equal and its `variant` differs; a canned three-node recipe always.
+    canned = {"steps": [
+        {"op": "ph", "args": [], "p": {"name": "p1", "shape": [3],
+                                       "dtype": "float64"}},
+        {"op": "scalar", "args": [0], "p": {"c": 1 + seed % 3,
+                                            "kind": rng.choice(["mul", "add"])}},
+        {"op": rng.choice(["sin", "cos", "exp"]), "args": [1]}],
+        "outs": [["out0", 2]], "profile": "any"}
+    cands = [(canned, 300)]
     try:
         a0 = srecipe.build(recipe, None, 0, 0)[1]
         b0 = srecipe.build(recipe, None, 0, 0)[1]
         c0 = srecipe.build(recipe, None, 0, 1)[1]
-        fit = bool(a0 == b0) and \
-            walker.canon_key(a0, "identity") != walker.canon_key(c0, "identity")
+        if bool(a0 == b0) and walker.canon_key(a0, "identity") \
+                != walker.canon_key(c0, "identity"):
+            cands.append((recipe, 60))
         del a0, b0, c0
     except Exception:  # noqa: BLE001
-        fit = False
-    if fit:
-        for t in range(8):
+        pass
+    import pytato as pt
+    for rcp, rounds in cands:
+        for t in range(rounds):
             var = t % 2
             try:
-                a = srecipe.build(recipe, None, 0, 0)[1]
-                b = srecipe.build(recipe, None, 0, var)[1]
-                e = bool(a == b)
-                ka, kb_ = (kb(a), kb(b)) if with_keys else (None, None)
+                a = srecipe.build(rcp, None, 0, 0)[1]
+                b = srecipe.build(rcp, None, 0, var)[1]
+                # the named results one by one (Array.__eq__) and the whole
+                # (the named-results __eq__): different entry points
+                prs = [(a, b)]
+                if isinstance(a, pt.DictOfNamedArrays) \
+                        and isinstance(b, pt.DictOfNamedArrays):
+                    prs += [(a._data[k], b._data[k]) for k in sorted(a._data)
+                            if k in b._data]
+                verdicts = [bool(x == y) for x, y in prs]
+                wants = [walker.canon_key(x, "identity")
+                         == walker.canon_key(y, "identity") for x, y in prs] \
+                    if t < 2 else None
+                ka, kb_ = (kb(a), kb(b)) if with_keys and t % 10 < 2 \
+                    else (None, None)
             except Exception:  # noqa: BLE001
                 break
+            if wants is not None:
+                # what the walker says in the first equal and the first
+                # different round holds for all later rounds of that parity
+                if var == 0:
+                    want_eq = wants
+                else:
+                    want_ne = wants
             cnt["same_shape_alternations"] = \
                 cnt.get("same_shape_alternations", 0) + 1
-            if e != (var == 0):
+            ref = want_eq if var == 0 else want_ne
+            if verdicts != ref:
+                e = verdicts[0] if verdicts[0] != ref[0] else \
+                    next(v for v, w in zip(verdicts, ref) if v != w)
                 viol.append({
                     "class": ("equal-despite-difference" if e else
                               "same-structure-but-unequal")
                     + ":transient-same-shape", "handles": [],
                     "detail": f"alternation round {t}: fresh graphs at "
                               "recycled addresses"})
-            if with_keys and (ka == kb_) != (var == 0):
+                break
+            if ka is not None and (ka == kb_) != ref[0]:
                 viol.append({
                     "class": ("key-collision" if ka == kb_ else
                               "same-structure-but-key-differs")
                     + ":transient-same-shape", "handles": [],
                     "detail": f"alternation round {t}"})
-            del a, b
+                break
+            # (the order of release decides whether the next round's a lands
+            # on this round's a or on this round's b: both are tried)
+            if (t // 2) % 2:
+                del a
+                del b
+            else:
+                del b
+                del a
+            del prs
     return {"violations": viol[:6], "counters": cnt, "sample": sample}
 
 
@@ -1146,6 +1189,9 @@ def _rank_exec(st, recipe, rank, iterations, f_order_inputs=False,
     mpi = types.ModuleType("mpi4py.MPI")
     mpi.Op = _ProcOp
     mpi.Request = _ProcRequest
+    null = _ProcRequest(-1)
+    null.done = True
+    mpi.REQUEST_NULL = null
     mpi4py.MPI = mpi
     sys.modules["mpi4py"] = mpi4py
     sys.modules["mpi4py.MPI"] = mpi
